@@ -134,6 +134,11 @@ def run_sequence(b, phys, laws=False):
             elif op["op"] == "reset":
                 A.reset()
                 ev.reset()
+                # the EV object is used again (a second simulation after the documented EV.reset()): it leaves its
+                # station and is plugged into an idle one
+                evse.unplug()
+                evse = EVSE("E-%d" % (n + 2), max_rate=BIG_RATE)
+                evse.plugin(ev)
                 agree = True
                 for name, got, want in (("reset.charge", A._current_charge, init), ("reset.power", A.current_charging_power, 0),
                                         ("reset.ev_battery_charge", B._current_charge, init),
